@@ -25,13 +25,13 @@ PROPERTY = "C05"
 BOUNDS = {
     "quick": dict(diagonal_n=[2, 3], lu_n=[2, 3], lu_perms="all", cholesky_n=[2, 3], ldl_n=[2, 3], ldl_perms="all (n=2), 3 of 6 (n=3)",
                   ldl_block="n=2 (one 2x2 block), n=3 (1+2)", qr_n=[2], sparse_lu_n=[2, 3], precond_n=[2, 3],
-                  auto_n=[2], auto_overrides=["none", "all", "herm", "sym"], cg_n=2, cg_maxit=[1, 2], cg_restart=[1, 50],
+                  auto_n=[2], auto_overrides=["none", "all", "herm", "sym"], cg_n=2, cg="maxit 1 (all trans, identity/Jacobi, x0 none/symbolic, real/complex); maxit 2 restart 1 (real, x0); maxit 2 restart 50 = recursive residual branch (real, x0, arbitrary preconditioner output)",
                   multigrid=["2x2", "4x2", "2x2x2"], multigrid_ndof=[1, 2],
                   rhs_shapes=["(n,)", "(n,1)", "(n,2)"], trans=["N", "T", "H"], data=["real", "complex", "real matrix / complex rhs"]),
     "thorough": dict(diagonal_n=[2, 3, 4], lu_n=[2, 3, 4], lu_perms="all (n<=3), 5 of 24 (n=4)", cholesky_n=[2, 3, 4], ldl_n=[2, 3, 4],
                      ldl_perms="all (n<=3), 3 of 24 (n=4)", ldl_block="n=2, n=3 (1+2, 2+1), n=4 (2+2)", qr_n=[2], sparse_lu_n=[2, 3, 4],
-                     precond_n=[2, 3, 4], auto_n=[2, 3], auto_overrides=["none", "all", "herm", "sym"], cg_n=2, cg_maxit=[1, 2],
-                     cg_restart=[1, 50], orth="2 and 3 vectors of length 3", multigrid=["2x2", "4x2", "2x2x2", "4x4", "2x2x4"],
+                     precond_n=[2, 3, 4], auto_n=[2, 3], auto_overrides=["none", "all", "herm", "sym"], cg_n=2, cg="as quick + maxit 2 complex, recursive branch with identity/Jacobi, block of 2 right-hand sides",
+                     orth="2 and 3 vectors of length 3", multigrid=["2x2", "4x2", "2x2x2", "4x4", "2x2x4"],
                      multigrid_ndof=[1, 2, 3], rhs_shapes=["(n,)", "(n,1)", "(n,2)"], trans=["N", "T", "H"],
                      data=["real", "complex", "real matrix / complex rhs"]),
 }
@@ -350,7 +350,7 @@ def sc_qr(V, P, cfg):
     A = _fin(V, Q @ Rm)
     _register(V, "qr", (Q, Rm))
     s = SolverDenseQR(A)
-    return _solve_all(V, P, s, A, _xstar(V, n, xc), "qr", {})
+    return _solve_all(V, P, s, A, _xstar(V, n, xc), "qr", {}, transes=tuple(cfg.get("transes", TRANS)))
 
 
 # ------------------------------------------------------------------------------------------------
@@ -662,6 +662,22 @@ def _sqnorm_cols(Rm):
     return out
 
 
+def _unit_direction(V, cplx):
+    """Rational parametrisation of the unit sphere (stereographic): every unit vector of R^2 / C^2 except one pole; with the
+    scale rho of either sign (see sc_cg) rho * u covers every non-zero vector."""
+    if not cplx:
+        t = V.real("dir_t", default=0.5)
+        den = 1 + t * t
+        return [(1 - t * t) / den, 2 * t / den]
+    s0, s1, s2 = V.real("dir_s0", default=0.5), V.real("dir_s1", default=-0.25), V.real("dir_s2", default=0.75)
+    ss = s0 * s0 + s1 * s1 + s2 * s2
+    den = ss + 1
+    c = [2 * s0 / den, 2 * s1 / den, 2 * s2 / den, (ss - 1) / den]
+    if V.symbolic:
+        return [C(c[0], c[1]), C(c[2], c[3])]
+    return [complex(c[0], c[1]), complex(c[2], c[3])]
+
+
 def sc_cg(V, P, cfg):
     from pymoto.solvers import CG, DampedJacobi, Preconditioner
     from .catalogue import _mk_sparse
@@ -671,49 +687,92 @@ def sc_cg(V, P, cfg):
     n = 2
     ncol = 2 if sk == "c2" else 1
     shp = (n,) if sk == "v" else (n, ncol)
-    b = V.cplxs("b", shp) if xc else V.reals("b", shp)
+    rat = bool(cfg.get("rat", ncol == 1))
+    x0 = None
     if cfg["x0"]:
         x0 = V.cplxs("x0", shp) if xc else V.reals("x0", shp)
+    w = V.real("w", positive=True, hi=1, default=0.75) if cfg["prec"] == "jacobi" else None
+    roots = []
+    z1 = None
+    if rat:
+        # pre-image for the square root in orth(z, normalize=True): the first preconditioned residual is z := rho * u with u a
+        # rationally parametrised unit vector and rho != 0, so |z| = |rho| is a rational function; np.sqrt returns the
+        # registered root after proving root^2 == argument.  z ranges over all non-zero vectors.
+        u = _unit_direction(V, xc)
+        rho = V.real("rho", nonzero=True, default=1.5)
+        if V.symbolic:
+            roots.append(rho if rho > 0 else -rho)          # forks on the sign of rho
+        z1 = np.empty(shp, dtype=object if V.symbolic else (complex if xc else float))
+        for i in range(n):
+            z1[(i,) if sk == "v" else (i, 0)] = rho * u[i]
+        z1 = _fin(V, z1)
+    if rat and cfg["prec"] in ("identity", "jacobi"):
+        # initial residual r0 with M^-1 r0 = z  (identity: r0 = z; Jacobi: r0_i = A_ii z_i / w);  b := r0 + op(A) x0
+        r0 = z1 if cfg["prec"] == "identity" else _fin(V, np.asarray(
+            [[A[i, i] * e / w for e in np.atleast_1d(z1[i])] for i in range(n)], dtype=object if V.symbolic else None).reshape(shp))
+        b = r0 if x0 is None else _fin(V, np.asarray(r0) + _op(A, t) @ np.asarray(x0))
     else:
-        x0 = None
+        b = V.cplxs("b", shp) if xc else V.reals("b", shp)
     tol_t = V.real("tol", positive=True, default=0.25)
     if V.symbolic:
-        from symx.scalars import NormVal
+        from symx.scalars import NormVal, _split_factors
         # the tolerance is the non-negative number whose square is tol^2: comparisons with norms are decided on squares
         tol = NormVal.make(tol_t * tol_t)
         for s2 in _sqnorm_cols(b):
             V.assume(s2 > 0, "CG: no zero right-hand-side column (the code divides by |b|)")
-            V.c.mark_positive(z3.simplify(s2.n))        # sign of the divisor |b|^2 known: no sign case split in comparisons
+            coef, facs = _split_factors(z3.simplify(s2.n))
+            if coef > 0 and len(facs) == 1 and facs[0][1] == 1:
+                V.c.mark_positive(facs[0][0])       # sign of the divisor |b|^2 known: no sign case split in comparisons
     else:
         tol = tol_t
     if cfg["prec"] == "jacobi":
-        w = V.real("w", positive=True, hi=1, default=0.75)
         prec = DampedJacobi(w=w)
     elif cfg["prec"] == "free":
-        # abstraction of *any* preconditioner: solve() returns arbitrary values (fresh symbols); the residual invariant
-        # and the convergence claim of CG must not depend on what the preconditioner returns
+        # abstraction of *any* preconditioner: solve() returns arbitrary values (fresh symbols; the first one in the
+        # rho * u form, which is every non-zero vector); the residual invariant and the convergence claim of CG must not
+        # depend on what the preconditioner returns
         class FreePreconditioner(Preconditioner):
             calls = 0
 
             def solve(self, rhs, x0=None, trans='N'):
                 FreePreconditioner.calls += 1
+                if FreePreconditioner.calls == 1 and z1 is not None:
+                    return z1.reshape(np.shape(rhs)).copy()
                 nm = "z%d" % FreePreconditioner.calls
                 return V.cplxs(nm, np.shape(rhs)) if xc else V.reals(nm, np.shape(rhs))
         prec = FreePreconditioner()
     else:
         prec = Preconditioner()
     Ain = _mk_sparse(V, A) if cfg.get("sparse", True) else A
+    if V.symbolic and ncol == 1 and cfg.get("inv_exact", True):
+        from symx import oracles
+        oracles.configure(inv_exact_1x1=True)       # p^H A p is 1x1 for a single right-hand side: inv is the reciprocal
     spy = []
     restore = None
     if V.symbolic:
         from symx import npshim
+        from symx.decide import quick_equal
         orig = npshim._linalg._ov["norm"]
+        orig_sqrt = npshim.OVERRIDES["sqrt"]
 
         def norm_spy(x, *a, **k):
             spy.append(x)
             return orig(x, *a, **k)
+
+        def sqrt_preimage(x, *a, **k):
+            if isinstance(x, (R, C)) and roots:
+                xr = x
+                if isinstance(x, C):
+                    xr = x.re if quick_equal(x.im, 0) else None
+                if xr is not None and xr.q is None:
+                    for cand in roots:
+                        if quick_equal(cand * cand, xr):
+                            V.c.stubs.add("np.sqrt (pre-image: returns the registered positive root after proving root^2 == argument)")
+                            return C(cand, 0) if isinstance(x, C) else cand
+            return orig_sqrt(x, *a, **k)
         npshim._linalg._ov["norm"] = norm_spy
-        restore = (npshim._linalg._ov, orig)
+        npshim.OVERRIDES["sqrt"] = sqrt_preimage
+        restore = (npshim._linalg._ov, orig, orig_sqrt)
     try:
         s = CG(Ain, preconditioner=prec, tol=tol, maxit=maxit, restart=restart)
         with warnings.catch_warnings(record=True) as wl:
@@ -723,14 +782,21 @@ def sc_cg(V, P, cfg):
     finally:
         if restore is not None:
             restore[0]["norm"] = restore[1]
+            npshim.OVERRIDES["sqrt"] = restore[2]
     obs = dict(x=x, warned=int(warned), A=A, b=b)
     if P is not None:
         k = "cg:%s:maxit%d:restart%d" % (t, maxit, restart)
         P.holds("cg:shape", np.shape(x) == shp, kind="cg:shape")
         res = np.asarray(b).reshape(n, ncol) - _op(A, t) @ np.asarray(x).reshape(n, ncol)
-        # (1) the residual whose norm the code tested last is the true residual of the returned x
-        rs = [a_ for a_ in spy[::2]]        # norm(r), norm(b) are called in pairs
-        P.holds("cg:norm-calls-paired", len(spy) % 2 == 0 and len(spy) >= 2, kind="cg:invariant")
+        # (1) the residual whose norm the code tested last is the true residual of the returned x.  The spy sees every
+        #     argument of np.linalg.norm: the right-hand side itself (same element objects as b) and the residuals r.
+        bflat = list(np.asarray(b).flat)
+
+        def is_b(arr):
+            fl = list(np.asarray(arr).flat)
+            return len(fl) == len(bflat) and all(e is f for e, f in zip(fl, bflat))
+        rs = [a_ for a_ in spy if not is_b(a_)]
+        P.holds("cg:residual-norm-observed", len(rs) >= 1 and len(rs) < len(spy), kind="cg:invariant")
         if rs:
             P.arrays_eq("cg:invariant r==b-op(A)x", np.asarray(rs[-1]).reshape(n, ncol), res, kind=k + ":invariant")
         # (2) what the code tested last: returned without the max-iteration warning  =>  |r|^2 <= tol^2 |b|^2 for every
@@ -744,6 +810,45 @@ def sc_cg(V, P, cfg):
             else:
                 P.holds("cg:warning-only-if-not-converged", _any_true([r2[j] / b2[j] > tol_t * tol_t for j in range(ncol)]),
                         kind=k + ":warning")
+    return obs
+
+
+def sc_cg_degenerate(V, P, cfg):
+    """CG on right-hand sides with a zero column / a column the initial guess already solves (concrete zeros, symbolic A):
+    the exact solution of such a column is x0 (or 0); the returned block must solve all columns."""
+    from pymoto.solvers import CG
+    from .catalogue import _mk_sparse
+    A = _hpd(V, False)
+    case = cfg["case"]
+    one = V.const(1)
+    zero = V.const(0)
+    x0 = None
+    if case == "zero-rhs":
+        b = np.array([zero, zero], dtype=object if V.symbolic else float)
+    elif case == "zero-column":
+        b = np.array([[V.real("b_0", default=1.0), zero], [V.real("b_1", default=1.0), zero]], dtype=object if V.symbolic else float)
+    else:   # solved-column: x0[:, 1] solves the second column exactly (b[:, 1] = A e_0, x0[:, 1] = e_0)
+        b = np.array([[V.real("b_0", default=1.0), A[0, 0]], [V.real("b_1", default=1.0), A[1, 0]]],
+                     dtype=object if V.symbolic else float)
+        x0 = np.array([[zero, one], [zero, zero]], dtype=object if V.symbolic else float)
+    b = _fin(V, b)
+    if V.symbolic and case != "zero-rhs":
+        V.assume(b[0, 0] * b[0, 0] + b[1, 0] * b[1, 0] > 0)
+    tol = V.const("1e-6")
+    s = CG(_mk_sparse(V, A), tol=tol, maxit=2)
+    with warnings.catch_warnings(record=True) as wl:
+        warnings.simplefilter("always")
+        x = s.solve(b.copy(), x0=(None if x0 is None else _fin(V, x0).copy()))
+    warned = any("Maximum iterations" in str(w_.message) for w_ in wl)
+    obs = dict(x=x, warned=int(warned), A=A, b=b)
+    if P is not None:
+        res = np.asarray(b) - np.asarray(A) @ np.asarray(x)
+        shp = np.shape(b)
+        ncol = 1 if len(shp) == 1 else shp[1]
+        r2, b2 = _sqnorm_cols(res.reshape(2, ncol)), _sqnorm_cols(np.asarray(b).reshape(2, ncol))
+        if not warned:
+            for j in range(ncol):
+                P.holds("cgdeg:converged-claim[%d]" % j, r2[j] <= tol * tol * b2[j], kind="cg-degenerate:%s" % case)
     return obs
 
 
@@ -868,7 +973,7 @@ def _lin1d(i):
 
 # ------------------------------------------------------------------------------------------------
 SCEN = dict(diagonal=sc_diagonal, lu=sc_lu, ldl=sc_ldl, cholesky=sc_cholesky, qr=sc_qr, sparselu=sc_sparse_lu,
-            precond=sc_precond, auto=sc_auto, cg=sc_cg, orth=sc_orth, multigrid=sc_multigrid)
+            precond=sc_precond, auto=sc_auto, cg=sc_cg, cgdeg=sc_cg_degenerate, orth=sc_orth, multigrid=sc_multigrid)
 
 
 def _perms(n, tier, what):
@@ -963,7 +1068,11 @@ def items(tier):
     add("ldl", "herm-block2-contract-n2-c", n=2, perm=[0, 1], ac=True, xc=True, hermitian=True, fherm=True, blocks=[2],
         inv_candidate=False, variant="herm-block")
     for tag, ac, xc in DATA:
-        add("qr", "n2-%s" % tag, n=2, ac=ac, xc=xc)
+        if ac:
+            for t in TRANS:      # one item per trans mode: the complex identities modulo |al|^2+|be|^2 = 1, |u| = 1 need the solver
+                add("qr", "n2-%s-%s" % (tag, t), n=2, ac=ac, xc=xc, transes=[t])
+        else:
+            add("qr", "n2-%s" % tag, n=2, ac=ac, xc=xc)
     for n in b["sparse_lu_n"]:
         for tag, ac, xc in DATA[:2]:
             add("sparselu", "n%d-%s" % (n, tag), n=n, ac=ac, xc=xc)
@@ -995,27 +1104,30 @@ def items(tier):
                     if n == 3 and (ov in ("herm", "sym") or (sparse and ov != "none")):
                         continue
                     add("auto", "n%d-%s-%s-%s" % (n, cls, "sp" if sparse else "de", ov), n=n, cls=cls, sparse=sparse, ov=ov)
-    # CG
+    # CG.  maxit = 1: the explicit-restart branch (i % restart == 0 at i = 0 for every restart value); maxit = 2 with
+    # restart = 1: explicit restart twice; maxit = 2 with restart = 50: the recursive residual update r -= q @ alpha.
+    def cg(t, prec, x0, restart, maxit, tag, ac, xc, shape="v", **kw):
+        add("cg", "%s-%s-%s-r%d-m%d-%s%s" % (t, prec, "x0" if x0 else "nox0", restart, maxit, tag, "" if shape == "v" else "-" + shape),
+            ac=ac, xc=xc, trans=t, prec=prec, x0=x0, restart=restart, maxit=maxit, shape=shape, **kw)
     for t in TRANS:
         for prec in ("identity", "jacobi"):
             for x0 in (False, True):
-                for restart in b["cg_restart"]:
-                    for maxit in b["cg_maxit"]:
-                        for tag, ac, xc in DATA[:2]:
-                            if q and maxit == 2 and (not x0 or (ac and prec == "jacobi")):
-                                continue
-                            if maxit == 1 and restart == 50:
-                                continue       # i % restart == 0 at i = 0 for every restart: same path as restart = 1
-                            add("cg", "%s-%s-%s-r%d-m%d-%s" % (t, prec, "x0" if x0 else "nox0", restart, maxit, tag), ac=ac, xc=xc,
-                                trans=t, prec=prec, x0=x0, restart=restart, maxit=maxit, shape="v")
-    for t in TRANS:
-        for tag, ac, xc in DATA[:2]:
-            add("cg", "%s-free-x0-r50-m2-%s" % (t, tag), ac=ac, xc=xc, trans=t, prec="free", x0=True, restart=50, maxit=2, shape="v")
-    add("cg", "N-identity-x0-r1-m1-r-c1", ac=False, xc=False, trans="N", prec="identity", x0=True, restart=1, maxit=1, shape="c1")
-    add("cg", "H-jacobi-x0-r1-m1-c-c1-dense", ac=True, xc=True, trans="H", prec="jacobi", x0=True, restart=1, maxit=1, shape="c1",
-        sparse=False)
+                for tag, ac, xc in DATA[:2]:
+                    cg(t, prec, x0, 1, 1, tag, ac, xc)
+        for prec in ("identity", "jacobi"):
+            cg(t, prec, True, 1, 2, "r", False, False)
+        cg(t, "free", True, 50, 2, "r", False, False)
+        if not q:
+            cg(t, "identity", False, 50, 2, "r", False, False)
+            cg(t, "identity", True, 1, 2, "c", True, True)
+            cg(t, "free", False, 50, 2, "c", True, True)
+    for case in ("zero-rhs", "zero-column", "solved-column"):
+        add("cgdeg", case, case=case)
+    cg("N", "identity", True, 1, 1, "r", False, False, shape="c1")
+    cg("H", "jacobi", True, 1, 1, "c", True, True, shape="c1", sparse=False)
     if not q:
-        add("cg", "N-identity-x0-r1-m1-r-c2", ac=False, xc=False, trans="N", prec="identity", x0=True, restart=1, maxit=1, shape="c2")
+        cg("N", "identity", True, 1, 1, "r", False, False, shape="c2")
+        cg("N", "jacobi", False, 50, 2, "r", False, False)
         for k in (2, 3):
             add("orth", "k%d-r" % k, k=k, ac=False)
         add("orth", "k2-c", k=2, ac=True)
@@ -1023,6 +1135,9 @@ def items(tier):
         dims = [int(s) for s in mesh.split("x")] + [0]
         for ndof in b["multigrid_ndof"]:
             add("multigrid", "%s-ndof%d" % (mesh, ndof), mesh=dims[:3], ndof=ndof)
+    # expensive items first (better packing on the worker pool)
+    cost = dict(cg=0, qr=1)
+    out.sort(key=lambda it: (cost.get(it["kind"], 5), -(it.get("maxit", 0) * 2 + bool(it.get("x0")) + bool(it.get("ac")))))
     return out
 
 
@@ -1030,7 +1145,14 @@ MAX_PATHS = dict(auto=400, cg=60, orth=60, ldl=40)
 
 
 def run_item(cfg, tier):
-    return symbolic_run(SCEN[cfg["kind"]], cfg, tier, max_paths=MAX_PATHS.get(cfg["kind"], 20))
+    kw = {}
+    if cfg["kind"] == "cg":
+        # feasibility of the deeper CG paths is a non-linear question (SQRT of |z|^2, reciprocal of p^H A p); an undecided
+        # side is kept (sound: obligations are still checked under the path condition), so a short time-out only saves time
+        kw["feas_timeout_ms"] = 1500 if tier == "quick" else 5000
+    if cfg["kind"] == "qr":
+        kw["obl_timeout_ms"] = 30000 if tier == "quick" else 120000    # identities modulo the two unit-norm relations
+    return symbolic_run(SCEN[cfg["kind"]], cfg, tier, max_paths=MAX_PATHS.get(cfg["kind"], 20), **kw)
 
 
 # ------------------------------------------------------------------------------------------------
@@ -1048,6 +1170,19 @@ def replay(cfg, label, env, case):
     kind = cfg["kind"]
     V = Vals(env=env)
     tol = 1e-8
+    if kind == "cgdeg":
+        # a division by zero of the symbolic run (exception label) or a failed residual clause: the clause itself is evaluated
+        # on the real code - every column of the returned block must be finite and solve its system to the tolerance
+        obs = SCEN[kind](V, None, cfg)
+        A, b, x = np.asarray(obs["A"], dtype=float), np.asarray(obs["b"], dtype=float), np.asarray(obs["x"], dtype=float)
+        ncol = 1 if b.ndim == 1 else b.shape[1]
+        res = b.reshape(2, ncol) - A @ x.reshape(2, ncol)
+        finite = bool(np.all(np.isfinite(x)))
+        ok = finite and all(np.linalg.norm(res[:, j]) <= 1e-6 * np.linalg.norm(b.reshape(2, ncol)[:, j]) * (1 + 1e-6) + 1e-300
+                            for j in range(ncol))
+        return dict(reproduced=bool(not ok and not obs["warned"]),
+                    detail=dict(case=cfg["case"], x=x.tolist(), A=A.tolist(), b=b.tolist(), finite=finite, max_iteration_warning=bool(obs["warned"]),
+                                note="CG returned without its max-iteration warning but x does not solve A x = b"))
     if label.startswith("exception:"):
         try:
             SCEN[kind](V, None, cfg)
